@@ -340,6 +340,10 @@ INT_TOKENS = {'NUMBER': True, 'NEGATIVENUMBER': False, 'NUMBER64': False, 'NEGAT
 
 
 # ------------------------------------------------------------------------------------------- action evaluator
+class NonTokenValue(Exception):
+    """a grammar action takes a value from the parser object (self.<attr>) instead of from the matched symbols"""
+
+
 class Unsupported(Exception):
     pass
 
@@ -569,6 +573,9 @@ class ActionEval(object):
             if e.id == 'None':
                 return NONE
             raise Unsupported('name %s' % e.id)
+        if isinstance(e, ast.Attribute) and isinstance(e.value, ast.Name) and self.fn.args.args and \
+                e.value.id == self.fn.args.args[0].arg and len(self.fn.args.args) > 1:
+            raise NonTokenValue(norm(e))
         if isinstance(e, ast.Tuple):
             return Tup([self.ev(x) for x in e.elts])
         if isinstance(e, ast.List):
@@ -769,6 +776,7 @@ class GrammarShapes(object):
         self.terms_k = {}    # Prod -> term with keyword terminals replaced by their (unique) source word
         self.tests = {}      # Prod -> truth tests
         self.unsupported = {}
+        self.nontoken = {}   # Prod -> expression that takes a value from the parser object
         # token type -> source words
         self.token_words = {}
         for w, t in dialect.reserved.items():
@@ -832,6 +840,9 @@ class GrammarShapes(object):
             for p in self.d.prods:
                 try:
                     term, tests = self.eval_prod(p)
+                except NonTokenValue as e:
+                    self.nontoken[p] = str(e)
+                    term, tests = Opaque('non-token value'), []
                 except Unsupported as e:
                     self.unsupported[p] = str(e)
                     term, tests = Opaque('unsupported'), []
